@@ -45,6 +45,7 @@ REPO = os.path.dirname(os.path.dirname(TP))
 # ------------------------------------------------------------------ site table (from the translator)
 
 ROWS = SW.scan()
+EVOPS = {}          # (abs path, first line of the function) -> [(letter, span, target_code, value_code, key)]
 EVLINES = {}        # (abs path, line) -> [(order, letter, target_code, value_code, key)]
 SITEFUNCS = set()   # (abs path, first line of the function)
 STMT_END = {}       # (abs path, first line of a multi-line statement in a site function) -> last line
@@ -81,6 +82,12 @@ def _build_tables():
             seen.add(sig)
             EVLINES.setdefault((path, line), []).append((order, letter, t, v, key))
 
+        for letter, *span in ev.get("ops", []):
+            sig = (path, tuple(span), letter, r["target"] if letter != "N" else "")
+            if sig not in seen:
+                seen.add(sig)
+                EVOPS.setdefault((path, r["first_line"]), []).append(
+                    (letter, tuple(span), tgt if letter != "N" else None, val if letter == "W" else None, key))
         add(ev["W"], (0, 0, 0), "W", tgt, val)
         for l in ev["S"]:
             add(l, (0, 0, 0), "S", tgt, None)
@@ -925,6 +932,7 @@ class Run:
         self.writes = []              # (key, id(obj), value, tid)
         self.timeout = False
         self._codes = {}
+        self._opmaps = {}
 
     # -- tracing
     def _in_scope(self, code):
@@ -971,11 +979,13 @@ class Run:
                             return local
                 if evs is None and events_only:
                     return local
-                self.yield_point(tid, frame, evs)
+                # bytecode mode: the events are logged at the very instruction that performs the access, not at the line
+                self.yield_point(tid, frame, None if opcodes else evs)
             elif event == "opcode":
                 code = frame.f_code
-                if code.co_code[frame.f_lasti] in hot:
-                    self.yield_point(tid, frame, None)
+                evs = self._opmap(code).get(frame.f_lasti)
+                if evs is not None or code.co_code[frame.f_lasti] in hot:
+                    self.yield_point(tid, frame, evs)
             elif event == "return":
                 last[0] = None
             return local
@@ -987,6 +997,23 @@ class Run:
                 frame.f_trace_opcodes = True
             return local
         return g
+
+    def _opmap(self, code):
+        """instruction offset -> events, for the CALL / STORE instructions whose source span is an event node of the table"""
+        m = self._opmaps.get(code)
+        if m is None:
+            m = {}
+            evs = EVOPS.get((code.co_filename, code.co_firstlineno))
+            if evs:
+                for ins in _dis.get_instructions(code):
+                    if ins.opname not in ("CALL", "CALL_FUNCTION_EX", "STORE_ATTR", "STORE_SUBSCR") or ins.positions is None:
+                        continue
+                    pos = (ins.positions.lineno, ins.positions.col_offset, ins.positions.end_lineno, ins.positions.end_col_offset)
+                    for letter, span, tgt, val, key in evs:
+                        if span == pos:
+                            m.setdefault(ins.offset, []).append((0, letter, tgt, val, key))
+            self._opmaps[code] = m
+        return m
 
     def yield_point(self, tid, frame, evs):
         with self.cond:
@@ -1775,6 +1802,17 @@ def gen_cases(rng, tier, scale=1.0):
             add("A", sname, 2, max_pre=max_pre, cap=100 if quick else 500)
         if not quick:
             add("A", sname, 3, max_pre=2, cap=400)
+    # the same correspondence at BYTECODE granularity: yield points = every attribute / item / call instruction of the site
+    # functions, events logged at the very CALL / STORE instruction that performs the shared access (so the two loads of
+    # Map's read-back statement, or a load and a store inside one statement, can be separated)
+    for sname, v0, v1 in (rng.sample(CANONICAL, 4) if quick else CANONICAL):
+        fl = pick_fields(rng, sname, 2)
+        cases.append({"stream": "A", "shape": sname, "sseed": 1, "max_pre": 1 if quick else 2, "cap": 120 if quick else 500,
+                      "yield": "siteops",
+                      "threads": [{"op": "setattr", "field": fl[0], "value": v0},
+                                  {"op": "setattr", "field": fl[1], "value": v1}]})
+    for sname in (rng.sample(A_SHAPES + A2_SHAPES, 2) if quick else A_SHAPES + A2_SHAPES):
+        add("A", sname, 2, max_pre=1 if quick else 2, cap=120 if quick else 300, **{"yield": "siteops"})
     for sname, v0, v1 in CANONICAL_E:
         fl = pick_fields(rng, sname, 2)
         cases.append({"stream": "E", "shape": sname, "sseed": 1, "max_pre": 2, "cap": 400, "yield": "sitelines",
@@ -1983,8 +2021,8 @@ def gen_cases(rng, tier, scale=1.0):
     # attribute / item / global access and call of a site function is a yield point; exhaustive for one pre-emption
     # (quick) / two (thorough); oracle only
     ops_shapes = [x for x in A_SHAPES + A2_SHAPES if shape(x).racy or x in ("array_two_fields", "anyof", "immset")]
-    for sname in (rng.sample(ops_shapes, 5) if quick else ops_shapes):
-        add("E", sname, 2, max_pre=1 if quick else 2, cap=250 if quick else 300, **{"yield": "siteops"})
+    for sname in (rng.sample(ops_shapes, 3) if quick else ops_shapes):
+        add("E", sname, 2, max_pre=1 if quick else 2, cap=150 if quick else 300, **{"yield": "siteops"})
     for sname in (rng.sample(COLD_SHAPES, 1) if quick else COLD_SHAPES):
         for ops in ([["deserialize", "deserialize"]] if quick else [["deserialize", "deserialize"], ["serialize", "serialize"]]):
             add_ops("E", sname, ops, max_pre=1, cap=400, **{"yield": "siteops"})
